@@ -1073,8 +1073,9 @@ func genC04(r *rand.Rand, tier string, idx int) *World {
 	w.Extra["c02prop"] = "C04"
 	w.Extra["c04end"] = pick(r, "hold", "hold", "promote")
 	w.Cfg.StrategyEdits = chance(r, 0.5)
-	if c := w.EDS[0].Strategy.Canary; c != nil && chance(r, 0.12) {
+	if c := w.EDS[0].Strategy.Canary; c != nil && chance(r, 0.2) {
 		c.Replicas = pick(r, "0", "0%") // a canary that owns no node
+		w.Cfg.KubeletFaults = true       // Failed pods: clean-up work on any node
 	}
 	w.Cfg.EndCanary = "validate"
 	return w
